@@ -496,8 +496,8 @@ pub fn run(mut ctx: Ctx) -> ! {
         Part::new(
             "random_histories",
             "random DAG histories as in C11 (1-5 items quick, 1-7 thorough) with 2-5 cancellations of a hand-polled next() future at generated positions and await points (unpolled / nth suspension in begin, take_next_ready, commit, get_operation / parked on the notifier); non-trivial = at least one dropped future was suspended inside next() (begin / take_next_ready / commit / get_operation / notifier) while an item was in the ready queue",
-            150,
-            4_000,
+            300,
+            5_000,
         )
         .min_nontrivial(0.15)
         .shrink_iters(150),
